@@ -53,6 +53,7 @@ def run(ctx):
                         ctx.violation("%s: result depends on return_full_data although the draws do not" % sim, rep)
     large_fanout(ctx)
     after_aborted_call(ctx)
+    long_weighted_repeats(ctx)
     # (d) cross-process, hash seeds
     jobs = []
     for sim in CONT:
@@ -230,3 +231,53 @@ def after_aborted_call(ctx):
         if not (a == b == c):
             ctx.violation("%s: the same seeded call returns different output after another simulation was aborted by an exception "
                           "(before / right after / once more: %s)" % (sim, [a == b, b == c]), rep)
+
+
+def long_weighted_repeats(ctx):
+    """(g) long WEIGHTED runs with generic (non-dyadic) float weights, the same seeded call four times in one process: every
+    call must return bit-identical output.  Thousands of candidate insertions / removals per run, so that anything counted
+    across calls or across structures (a process-wide counter, a periodic recomputation whose phase depends on earlier
+    calls) shows as a last-bit difference in the event times."""
+    import random
+    import numpy as np, networkx as nx, EoN
+    for k in range(ctx.scale(4, 12)):
+        r = ctx.rng
+        sim = ["Gillespie_SIS", "Gillespie_SIR", "Gillespie_SIS", "Gillespie_simple_contagion"][k % 4]
+        n = r.choice([120, 200])
+        gseed = r.randrange(10 ** 6)
+        G = nx.random_regular_graph(6, n, seed=gseed)
+        wr = random.Random(gseed)
+        for u, v in G.edges():
+            G.edges[u, v]["w"] = 0.3 + wr.random()
+        for u in G:
+            G.nodes[u]["r"] = 0.5 + wr.random()
+        seed = r.randrange(10 ** 6)
+        infs = list(G)[: n // 10]
+        rep = dict(entry=sim, stream="long-weighted-repeats", n=n, graph_seed=gseed, seed=seed)
+        ctx.count("long-weighted-repeats:" + sim)
+
+        def call():
+            random.seed(seed); np.random.seed(seed)
+            if sim == "Gillespie_SIS":
+                out = EoN.Gillespie_SIS(G, 1.0, 1.0, initial_infecteds=infs, tmax=6, transmission_weight="w", recovery_weight="r")
+            elif sim == "Gillespie_SIR":
+                out = EoN.Gillespie_SIR(G, 1.5, 1.0, initial_infecteds=infs, tmax=20, transmission_weight="w", recovery_weight="r")
+            else:
+                H = nx.DiGraph(); H.add_edge("I", "S", rate=1.0, weight_label="r")
+                J = nx.DiGraph(); J.add_edge(("I", "S"), ("I", "I"), rate=1.0, weight_label="w")
+                IC = {u: ("I" if u in infs else "S") for u in G}
+                out = EoN.Gillespie_simple_contagion(G, H, J, IC, ["S", "I"], tmax=5)
+            return [[float(x) for x in col] for col in out]
+        try:
+            outs = [call() for _ in range(4)]
+        except Exception as e:
+            ctx.case(rep, nontrivial=False)
+            ctx.violation("%s raised %s on a long weighted run" % (sim, type(e).__name__), dict(rep, error=repr(e)[:200]))
+            continue
+        ctx.case(dict(rep, events=len(outs[0][0])), nontrivial=True)
+        diff = [i for i in range(1, 4) if outs[i] != outs[0]]
+        if diff:
+            j = diff[0]
+            where = next((i for i, (a, b) in enumerate(zip(outs[0][0], outs[j][0])) if a != b), None)
+            ctx.violation("%s: identically seeded repeated calls differ (call %d vs call 0, first differing event time at row %s of %d) on a "
+                          "long weighted run with generic float weights" % (sim, j, where, len(outs[0][0])), rep)
